@@ -12,6 +12,15 @@ search:  harness/domain.py — the property's own oracle (membership, integralit
          of boundary positions, poles, scales 1e-12..1e+12 x width, extreme base draws,
          1..3 parameters, all conventions, adaptive variants at adapted scales; plus
          proposed_position along runs of real chains of every family
+streaks: harness/domain.py (gen_streaks) — every rejection loop (bounded normal / bounded discrete /
+         zero-draw loop of the discrete family / angular / bounded eigenvector and all adaptive
+         variants), each parameter position, is served 99..65536 (thorough: ..250001) out-of-domain
+         draws and then a landing one: the output must be the image of the landing draw after
+         streak+1 draws (walk over the generator log + the Lean model, whose loops are unbounded)
+by name: harness/domain.py (gen_named, spec field cfg) — boundaries / successive / prior widths /
+         birth means and stds handed over as dicts in another key order than `parameters`, with
+         extra keys, and set again after construction: same scripted call, same outcome as with
+         dicts in parameter order (metamorphic check on the real code), usual oracle and model on top
 """
 import json
 import time
@@ -26,8 +35,9 @@ def run(chk, tier, proof_ok):
     cases = domain.all_cases(chk.seed, tier, full)
     every = 1 if full else 10
     findings, divs, stats = domain.run_suite(cases, do_model=True, stats=stats, model_every=every)
-    if divs and not full:
-        # the correspondence broke: run the full search (and the full correspondence)
+    if [d for d in divs if not d.get('flagged')] and not full:
+        # the correspondence broke on a case that is not itself a failing input found above:
+        # run the full search (and the full correspondence)
         full = True
         every = 1
         cases = domain.all_cases(chk.seed, 'thorough', True)
@@ -45,10 +55,12 @@ def run(chk, tier, proof_ok):
     cov['distinct_nontrivial'] = stats.get('_distinct', 0)
     cov['rule'] = ('one evaluation = one real jump()/birth call under a scripted generator, judged by the '
                    'property\'s own oracle; non-trivial = consumed at least one base draw or refused; '
-                   'distinct = distinct (family, configuration, start point, script) descriptions')
+                   'distinct = distinct (family, configuration, start point, script) descriptions; the directed '
+                   'rejection-streak and name-keyed-configuration cases are part of these numbers and are '
+                   'itemised under rejection_streaks / name_keyed_configuration')
     cov['correspondence'] = {
         'compared_with_model': stats.get('_compared', 0), 'divergences': len(divs),
-        'model_answers': stats.get('_model_answers', {}), 'sampling': 'every %d-th case' % every}
+        'model_answers': stats.get('_model_answers', {}), 'sampling': 'every %d-th case, and every rejection-streak / name-keyed case marked for it' % every}
     cov['search'] = {
         'mode': 'full' if full else 'light',
         'oracle': 'bounded: lo <= y <= hi (eigenvector: within its isclose tolerance); discrete: int type, '
@@ -58,7 +70,22 @@ def run(chk, tier, proof_ok):
         'per_group': {k: v for k, v in stats.items() if not k.startswith('_')},
         'failing_inputs_per_key': stats.get('_finding_counts', {}),
         'skipped': stats.get('_skipped_reasons', {})}
-    for c in cases[:: max(1, len(cases) // 6)][:6]:
+    # the two directed suites: measured numbers of this run
+    cov['rejection_streaks'] = dict(stats.get('_streaks', {}), rule=(
+        'one case = one real jump() whose generator serves, at one loop position, a streak of draws with image '
+        'outside the declared domain and then a landing draw (2..4 rejections at the other positions); lengths '
+        'are measured on the log of the real call; judged_by_walk = outcome compared with the first conforming '
+        'draw of the logged stream; compared_with_model = the same through DriverDomain (streaks over %d only '
+        'at the first position of a family)' % domain.STREAK_MODEL_MAX))
+    cov['name_keyed_configuration'] = dict(stats.get('_named', {}), rule=(
+        'variant = real object configured from dicts laid out as per_layout says (key order relative to '
+        '`parameters`, two extra keys, set again through the setters); pairs_compared = the same scripted call on '
+        'the object configured in parameter order; pairs_identical = same kind of outcome, same values, same '
+        'number of base draws; variant_not_accepted = layouts the code under test refused to construct (no alarm)'))
+    picks = cases[:: max(1, len(cases) // 6)][:6]
+    picks += [c for c in cases if domain.is_streak(c) and max(c['tail'][1]) <= 101][:1]
+    picks += [c for c in cases if domain.cfg_is_variant(c['spec'].get('cfg')) and c['spec'].get('cfg', {}).get('extra')][:1]
+    for c in picks:
         try:
             prop, res = domain.run_case(c)
             pr = domain.protocol(c['spec'], prop, c['fromx'], res) if prop is not None else None
